@@ -287,6 +287,38 @@ def run_ops(rep, tier):
     _guard("checkpoint: primitive(fun) + defvjp_argn", _blk_checkpoint__primitive_fun____d)
 
 
+def run_index_algebra(rep, tier):
+    """L3 (mixed-radix index identity) behind `jacobian`: with ndindex / stack / reshape in C order (npspec), the element at multi-index o ++ i of
+    reshape(stack([vjp(e_o) for o in ndindex(out)]), out + in) is vjp(e_o)[i].  In flat positions: flat_{out+in}(o ++ i) = flat_out(o) * prod(in) + flat_in(i),
+    for all dimension sizes and all in-range indices - a polynomial identity discharged by z3 for every rank pair 0..3 x 0..3."""
+    import z3
+
+    from vlib.smt import check_sat
+
+    def flat(idx, shape):
+        r = z3.IntVal(0)
+        for i_, d_ in zip(idx, shape):
+            r = r * d_ + i_
+        return r
+    for ro in range(0, 4):
+        for ri in range(0, 4):
+            od = [z3.Int(f"od{k}") for k in range(ro)]
+            idd = [z3.Int(f"id{k}") for k in range(ri)]
+            oi = [z3.Int(f"o{k}") for k in range(ro)]
+            ii = [z3.Int(f"i{k}") for k in range(ri)]
+            hyps = [d > 0 for d in od + idd] + [z3.And(0 <= a, a < d) for a, d in zip(oi + ii, od + idd)]
+            pin = z3.IntVal(1)
+            for d in idd:
+                pin = pin * d
+            goal = flat(oi + ii, od + idd) == flat(oi, od) * pin + flat(ii, idd)
+            st, m, backend, secs = check_sat(hyps + [z3.Not(goal)], 20000, want_model=False)
+            name = f"autograd.differential_operators.jacobian:rank{ro}x{ri}:OP-index-algebra"
+            rep.obligation(name, st == "unsat", backend, secs, "E1a", sample=f"flat(o++i) = flat(o)*prod(in)+flat(i), out rank {ro}, in rank {ri}" if len(rep.samples) < 4 else None)
+            if st != "unsat":
+                rep.violation("autograd.differential_operators.jacobian:OP-index-algebra", f"rank{ro}x{ri}", f"index identity not discharged ({st})", witness=False, solver_output=st)
+    rep.assume("NumPy: ndindex, stack(axis=0) and reshape use C (row-major) order")
+
+
 def replay(spec):
     class R:
         samples = []
